@@ -352,6 +352,8 @@ func (en *DefaultEngine) runFirst(ctx context.Context) (bool, error) {
 		en.st.ExecPath = append([]string{}, full[:len(full)-1]...)
 		defer func() { en.st.ExecPath = full }()
 	}
+	lvl := len(en.st.ExecPath)
+	loadFail := en.st.MatchFlag(state.FLAG_LOADFAIL, true)
 	en.st.Down("_first")
 	defer en.ca.Pop()
 	defer func() { en.st.SizeIdx = idx }()
@@ -371,6 +373,20 @@ func (en *DefaultEngine) runFirst(ctx context.Context) (bool, error) {
 	b := vm.NewLine(nil, vm.LOAD, []string{"_first"}, []byte{0}, nil)
 	b = vm.NewLine(b, vm.HALT, nil, nil, nil)
 	b, err = pvm.Run(ctx, b)
+	if len(en.st.ExecPath) > lvl+1 {
+		// the first function failed and the VM has turned the failure into a move to the catch node:
+		// the whole excursion is undone and the failure is reported
+		for len(en.st.ExecPath) > lvl+1 {
+			en.st.Up()
+			en.ca.Pop()
+		}
+		if !loadFail {
+			en.st.ResetFlag(state.FLAG_LOADFAIL)
+		}
+		if err == nil {
+			err = fmt.Errorf("first function failed")
+		}
+	}
 	if err != nil {
 		return false, err
 	}
